@@ -172,6 +172,8 @@ def recognise(text, version):
             ids_ok = ID2.match(pos[0]) and REF2.match(pos[1])
         if not ids_ok:
             return bad()
+        if key == ("gfa2", "F") and pos[0] == "*":
+            res = "unspec"       # '*' where a (non-optional) segment identifier is expected
         p = pos[3:7] if key == ("gfa2", "E") else pos[2:6]
         aln = pos[7] if key == ("gfa2", "E") else pos[6]
         if not all(POS2.match(x) for x in p):
